@@ -879,6 +879,22 @@ async fn run(opts: Opts, lines: Vec<String>, out: &mut dyn Write) -> std::io::Re
         .map(|l| serde_json::from_str::<Value>(l).unwrap_or_else(|e| json!({"rpc": "?", "parse_error": e.to_string()})))
         .collect();
     let mut first = true;
+    // Warm-up (not recorded): the server's port accepts connections a little before its gRPC service answers; under
+    // machine load the very first request of a script could meet a transport error that says nothing about the server.
+    // A Health call is repeated until ANY answer comes from the server itself (also UNAUTHENTICATED counts).
+    if reqs.iter().any(|r| !matches!(r.get("rpc").and_then(|x| x.as_str()), Some("Sleep" | "HttpGet" | "Usage"))) {
+        for _ in 0..10 {
+            if let Ok(c) = connect(&opts).await {
+                let probe = json!({"rpc": "Health", "key": "", "timeout_ms": 1500});
+                let (oc, _ms) = exec_one(Some(c.clone()), String::new(), opts.clone(), probe).await;
+                if !oc.broken() {
+                    chan = Some(c);
+                    break;
+                }
+            }
+            tokio::time::sleep(Duration::from_millis(150)).await;
+        }
+    }
     while i < reqs.len() {
         // group of concurrent requests?
         let par = reqs[i].get("par").cloned().unwrap_or(Value::Null);
